@@ -91,7 +91,7 @@ theorem WorkerInv.step {s : State} (h : WorkerInv s) (st : Step) (hv : valid s s
     · exact h
     · rename_i hd
       have hph : s.phase1 = false := by
-        rcases hv.1.2 with hp | hp
+        rcases hv.2 with hp | hp
         · exact hp
         · simp at hp; exact absurd hp hd
       have hvec := h.ph0 hph
